@@ -159,6 +159,21 @@ ADD3 = {
     'C19': ' The independent variable at any position of the creation order.',
     'C20': ' A second ARL file with other levels is opened and read between opening and reading the file under test.',
 }
+ADD4 = {
+    'C01': ' eval of partial views (A[0], A[1:], A.array()): raises or well-formed.',
+    'C02': ' Attributes of the variables of IOAPI slices are those of the source.',
+    'C03': ' Reducers on a disk-backed file with missing cells (disk_applies).',
+    'C04': ' Pieces of length 0 along the stack dimension (first, middle, last, all).',
+    'C05': ' eval of partial and bare-masked-array views of a masked variable, then writes into the result.',
+    'C06': ' The coordinate keys of the (left) operand are coordinate keys of the result of an operator or mask().',
+    'C07': ' Python-integer attributes beyond 32 bits (NETCDF4).',
+    'C12': ' CF cell bounds: time_bounds with the units of time and no calendar of its own, getTimes(bounds=True), also for 365/366-day calendars where the decoding is right.',
+    'C14': ' Cuts of uamiv and lateral boundary files are also opened in update mode (r+).',
+    'C15': ' Registry.tla has the Register action; histories register a reader (a subclass of the gridded CAMx reader) between opens: the selection is the first accepting candidate of the CURRENT registry.',
+    'C18': ' The file is also opened with nogroup=[one category] and read through the group accessors.',
+}
+for _k, _v in ADD4.items():
+    ADD3[_k] = ADD3.get(_k, '') + _v
 for _k, _v in ADD3.items():
     ADD2[_k] = ADD2.get(_k, '') + _v
 for _k, _v in ADD2.items():
